@@ -71,7 +71,7 @@ def run_go_many(props, tier, repo=REPO):
     """one load of the program, several properties: {prop: result}"""
     out = tempfile.NamedTemporaryFile(prefix="cl_many_", suffix=".json", delete=False)
     out.close()
-    cmd = [BIN, "-repo", repo, "-prop", ",".join(props), "-tier", tier, "-out", out.name]
+    cmd = [BIN, "-repo", repo, "-prop", ",".join(props) + ",", "-tier", tier, "-out", out.name]   # trailing comma: always the multi-property output format
     r = subprocess.run(cmd, env=goenv(), stdout=subprocess.PIPE, stderr=subprocess.PIPE, text=True)
     try:
         data = json.load(open(out.name))
